@@ -400,6 +400,50 @@ pub fn run(o: &Opts) -> Report {
             }
         }
     }
+    // three levels: the help flag and the `help` subcommand yield the help of the level they address
+    for k in 0..(if o.thorough() { 120 } else { 24 }) {
+        use clap::{Arg, ArgAction, Command};
+        let w = *rng.pick(&[0usize, 20, 40, 80, 120]);
+        let mk = move || {
+            let leaf = Command::new("leaf").about("LEAFABOUT").arg(Arg::new("lf").long("leaf-flag").action(ArgAction::SetTrue).help("LEAFHELP"))
+                .arg(Arg::new("lh").long("leaf-hidden").hide(true).action(ArgAction::SetTrue));
+            let mut mid = Command::new("mid").about("MIDABOUT").arg(Arg::new("mf").long("mid-flag").action(ArgAction::Set).help("MIDHELP")).subcommand(leaf);
+            if k % 3 == 0 { mid = mid.visible_alias("mi"); }
+            if k % 4 == 1 { mid = mid.subcommand(Command::new("twig").hide(true)); }
+            let mut root = Command::new("prog").term_width(w).arg(Arg::new("rf").short('r').action(ArgAction::Count).help("ROOTHELP")).subcommand(mid);
+            if k % 2 == 1 { root = root.propagate_version(true).version("1.2.3"); }
+            if k % 5 == 2 { root = root.disable_help_flag(true).arg(Arg::new("myhelp").long("help").short('h').action(ArgAction::Help).global(true)); }
+            root
+        };
+        let expect = |path: &[&str], long: bool| -> String {
+            let mut c = mk(); c.build();
+            let mut cur = &mut c;
+            for p in path { cur = cur.find_subcommand_mut(p).unwrap(); }
+            if long { cur.render_long_help().to_string() } else { cur.render_help().to_string() }
+        };
+        let cases: Vec<(Vec<&str>, Vec<&str>)> = vec![
+            (vec!["prog", "-h"], vec![]), (vec!["prog", "mid", "-h"], vec!["mid"]), (vec!["prog", "mid", "leaf", "-h"], vec!["mid", "leaf"]),
+            (vec!["prog", "mid", "leaf", "--help"], vec!["mid", "leaf"]), (vec!["prog", "-r", "mid", "--mid-flag", "x", "leaf", "--leaf-flag", "-h"], vec!["mid", "leaf"]),
+            (vec!["prog", "help"], vec![]), (vec!["prog", "help", "mid"], vec!["mid"]), (vec!["prog", "help", "mid", "leaf"], vec!["mid", "leaf"]),
+            (vec!["prog", "mid", "help", "leaf"], vec!["mid", "leaf"]), (vec!["prog", "mid", "help"], vec!["mid"]),
+        ];
+        for (argv, path) in cases {
+            let key = format!("three-level#{k} width={w} argv={argv:?}");
+            let r = std::panic::catch_unwind(|| { let mut c = mk(); c.try_get_matches_from_mut(argv.clone()).err().map(|e| (e.kind(), e.render().to_string())) });
+            rep.case(&key, path.len() >= 1);
+            rep.count("help_at_three_levels");
+            match r {
+                Err(_) => rep.oracle_fail("help-render-panics", &key, "panicked"),
+                Ok(None) => rep.oracle_fail("help-flag-not-help", &key, "no error"),
+                Ok(Some((kind, msg))) => {
+                    if kind != clap::error::ErrorKind::DisplayHelp { rep.oracle_fail("help-flag-not-help", &key, &format!("{kind:?}")); continue; }
+                    let (short, long) = (expect(&path, false), expect(&path, true));
+                    if msg != short && msg != long { rep.oracle_fail("help-of-wrong-level", &key, &format!("got:\n{msg}\nlevel {path:?} render_help:\n{short}")); }
+                    if msg.contains("leaf-hidden") || msg.contains("twig") { rep.oracle_fail("hidden-item-shown", &key, &msg); }
+                }
+            }
+        }
+    }
     if o.driver != "none" {
         let model = driver_batch(&o.driver, &reqs, o.par);
         for ((req, m), (hc, _w, use_long, help)) in reqs.iter().zip(model.iter()).zip(ctx.iter()) {
